@@ -1,4 +1,5 @@
 import Driver.Sexp
+import Driver.Util
 open Nop Nop.Driver
 
 structure DState where
@@ -75,6 +76,12 @@ def step (d : DState) (line : String) : DState × Option String :=
     match d.ty? tid, toVal v with
     | some t, some v => (d, some (if valid t v then "valid" else "invalid"))
     | _, _ => (d, some "bad-op")
+  | some (.atom op :: rest) =>
+    if ["rseq", "wseq", "sip", "sipspec", "tabhash", "ifchash", "sel64", "sel32", "endian"].contains op then
+      match rest.mapM atomStr with
+      | some toks => (d, some ((utilStep (op :: toks)).getD "bad-op"))
+      | none => (d, some "bad-op")
+    else (d, some "bad-op")
   | _ => (d, some "bad-op")
 
 partial def loop (h : IO.FS.Stream) (out : IO.FS.Stream) (d : DState) : IO Unit := do
